@@ -95,7 +95,7 @@ func TestC10_SlowConsumers(t *testing.T) {
 		}
 		var victims []*victim
 		var stalledFiltered []*node
-		refilteredStalled, partial := false, false
+		refilteredStalled, partial, underLoad := false, false, false
 		cachesCurrent := func() {
 			// the cache of a filtered subscription stays current although nobody reads its Events()
 			for _, n := range stalledFiltered {
@@ -269,6 +269,15 @@ func TestC10_SlowConsumers(t *testing.T) {
 				// (the pump may have taken one more event before it noticed the stall: counted from the stall point)
 				w.unstallNode(v.n)
 				count = func() int { return v.n.totalCount() - v.vbase }
+				if wTotal > kcache.EventBufsiz && rapid.Bool().Draw(t, "resumeUnderLoad") {
+					// the consumer resumes while events keep coming: what it receives must still be an
+					// in-order subsequence of what was published to it (checked below against the witness)
+					for i, nl := 0, rapid.IntRange(5, 40).Draw(t, "loadEvents"); i < nl; i++ {
+						k := rapid.SampledFrom(keys).Draw(t, "k")
+						w.put(k[0], k[1], drawLabels(t))
+					}
+					underLoad = true
+				}
 			}
 			deadline := time.Now().Add(wedgeBound)
 			for count() < want {
@@ -339,6 +348,6 @@ func TestC10_SlowConsumers(t *testing.T) {
 		}
 		statCase("C10", hashString(strings.Join(w.hist, ";")), nt, func() interface{} {
 			return map[string]interface{}{"nodes": len(w.nodes), "stalled": vkinds, "events": total, "history_head": hist}
-		}, fmt.Sprintf("refiltered_a_stalled_filtered_subscription=%v", refilteredStalled), fmt.Sprintf("stalled=%d", min(len(victims), 3)), fmt.Sprintf("partial_resume_after_overflow=%v", partial), fmt.Sprintf("stream_over_buffer=%v", total > kcache.EventBufsiz), "typed_tree="+cfg.typed)
+		}, fmt.Sprintf("refiltered_a_stalled_filtered_subscription=%v", refilteredStalled), fmt.Sprintf("stalled=%d", min(len(victims), 3)), fmt.Sprintf("partial_resume_after_overflow=%v", partial), fmt.Sprintf("resumed_while_events_kept_coming=%v", underLoad), fmt.Sprintf("stream_over_buffer=%v", total > kcache.EventBufsiz), "typed_tree="+cfg.typed)
 	})
 }
